@@ -30,6 +30,7 @@ import (
 	"sort"
 	"strconv"
 	"strings"
+	"sync"
 
 	"golang.org/x/tools/go/ssa"
 
@@ -243,6 +244,10 @@ func c10PkgOf(f *ssa.Function) *ssa.Package {
 	if f == nil {
 		return nil
 	}
+	if f.Pkg == nil && f.Object() != nil && f.Object().Pkg() != nil && f.Prog != nil {
+		// synthetic wrapper of a method (bound method value): it belongs to the package of the method
+		return f.Prog.Package(f.Object().Pkg())
+	}
 	return f.Pkg
 }
 
@@ -261,6 +266,13 @@ type c10Fact struct {
 type c10State struct {
 	facts map[string]c10Fact
 	phis  map[*ssa.Phi]ssa.Value
+	// cells: the value last stored on this path into a mutable local variable that is only written as a
+	// whole in its own function (a variable assigned on several branches, a named result kept in memory
+	// because of a defer); a nil entry means "written, but the value is no longer known"
+	cells map[*ssa.Alloc]ssa.Value
+	// loads: what a load of such a variable yielded when it executed on this path (the variable may have
+	// been written again since)
+	loads map[*ssa.UnOp]ssa.Value
 	taint bool // a branch whose condition depends on a tracked status could not be evaluated
 	trail []*ssa.BasicBlock
 }
@@ -271,6 +283,18 @@ func c10NewState() *c10State {
 
 func (s *c10State) clone() *c10State {
 	n := &c10State{facts: make(map[string]c10Fact, len(s.facts)+2), phis: make(map[*ssa.Phi]ssa.Value, len(s.phis)+2), taint: s.taint}
+	if len(s.cells) > 0 {
+		n.cells = make(map[*ssa.Alloc]ssa.Value, len(s.cells)+1)
+		for k, v := range s.cells {
+			n.cells[k] = v
+		}
+	}
+	if len(s.loads) > 0 {
+		n.loads = make(map[*ssa.UnOp]ssa.Value, len(s.loads)+1)
+		for k, v := range s.loads {
+			n.loads[k] = v
+		}
+	}
 	for k, v := range s.facts {
 		n.facts[k] = v
 	}
@@ -288,6 +312,12 @@ func (s *c10State) fingerprint() string {
 	}
 	for p, v := range s.phis {
 		keys = append(keys, fmt.Sprintf("phi%p=%p", p, v))
+	}
+	for a, v := range s.cells {
+		keys = append(keys, fmt.Sprintf("cell%p=%p", a, v))
+	}
+	for a, v := range s.loads {
+		keys = append(keys, fmt.Sprintf("ld%p=%p", a, v))
 	}
 	sort.Strings(keys)
 	if s.taint {
@@ -412,6 +442,96 @@ func (w *c10W) kill(b *ssa.BasicBlock, st *c10State) {
 			}
 		}
 	}
+	// a cell holding a value that is computed again no longer denotes what the instruction now denotes
+	for a, v := range st.cells {
+		if in, ok := v.(ssa.Instruction); ok && in.Block() == b {
+			st.cells[a] = nil
+		}
+	}
+	for ld, v := range st.loads {
+		if in, ok := v.(ssa.Instruction); ok && in.Block() == b || ld.Block() == b {
+			delete(st.loads, ld)
+		}
+	}
+}
+
+// c10PathCells caches c10PathCell.
+var c10PathCells sync.Map
+
+// c10PathCell: the local is read and written only as a whole, by loads and stores of its own function;
+// closures may capture it as long as they only read it. Its content on a path is the last value stored.
+func c10PathCell(a *ssa.Alloc) bool {
+	if v, ok := c10PathCells.Load(a); ok {
+		return v.(bool)
+	}
+	var readOnly func(v ssa.Value, d int) bool
+	readOnly = func(v ssa.Value, d int) bool {
+		refs := v.Referrers()
+		if refs == nil || d > 4 {
+			return false
+		}
+		for _, ref := range *refs {
+			switch x := ref.(type) {
+			case *ssa.UnOp:
+				if x.Op != token.MUL {
+					return false
+				}
+			case *ssa.DebugRef:
+			case *ssa.MakeClosure:
+				fn, isFn := x.Fn.(*ssa.Function)
+				if !isFn {
+					return false
+				}
+				for i, b := range x.Bindings {
+					if b == v && (i >= len(fn.FreeVars) || !readOnly(fn.FreeVars[i], d+1)) {
+						return false
+					}
+				}
+			default:
+				return false
+			}
+		}
+		return true
+	}
+	ok := a.Referrers() != nil
+	if ok {
+		for _, ref := range *a.Referrers() {
+			switch x := ref.(type) {
+			case *ssa.Store:
+				if x.Addr != ssa.Value(a) {
+					ok = false
+				}
+			case *ssa.UnOp:
+				if x.Op != token.MUL {
+					ok = false
+				}
+			case *ssa.DebugRef:
+			case *ssa.MakeClosure:
+				fn, isFn := x.Fn.(*ssa.Function)
+				if !isFn {
+					ok = false
+					break
+				}
+				for i, b := range x.Bindings {
+					if b == ssa.Value(a) && (i >= len(fn.FreeVars) || !readOnly(fn.FreeVars[i], 0)) {
+						ok = false
+					}
+				}
+			default:
+				ok = false
+			}
+		}
+	}
+	c10PathCells.Store(a, ok)
+	return ok
+}
+
+// cell returns the value the path last stored into the local (nil if not tracked or not known).
+func (s *c10State) cell(a *ssa.Alloc) ssa.Value {
+	if s == nil || s.cells == nil {
+		return nil
+	}
+	return s.cells[a]
 }
 
 // block enters b coming from pred (nil at the function entry).
@@ -461,8 +581,12 @@ func (w *c10W) block(b, pred *ssa.BasicBlock, _ int, st *c10State) {
 func c10TrackPhi(t types.Type) bool {
 	switch u := t.Underlying().(type) {
 	case *types.Basic:
-		return u.Info()&types.IsBoolean != 0
+		return u.Info()&(types.IsBoolean|types.IsString) != 0
 	case *types.Interface, *types.Pointer, *types.Map, *types.Slice, *types.Signature, *types.Chan:
+		return true
+	case *types.Struct, *types.Array:
+		// a value variable assigned on some branches only (single-exit style): which value it holds is
+		// decided by the edge the join was entered from
 		return true
 	}
 	return false
@@ -504,6 +628,44 @@ func (w *c10W) instrs(b *ssa.BasicBlock, from int, st *c10State) {
 			return
 		case *ssa.Return, *ssa.Panic:
 			return
+		case *ssa.Store:
+			if a, ok := x.Addr.(*ssa.Alloc); ok && c10WholeStore(a) == nil && c10PathCell(a) {
+				if st.cells == nil {
+					st.cells = map[*ssa.Alloc]ssa.Value{}
+				}
+				val := x.Val
+				// a copy of another variable is the value that was read from it
+				if ld, isLd := c10Strip(val).(*ssa.UnOp); isLd && ld.Op == token.MUL {
+					if cur := st.loads[ld]; cur != nil {
+						val = cur
+					}
+				}
+				st.cells[a] = val
+			}
+		case *ssa.UnOp:
+			if x.Op != token.MUL {
+				break
+			}
+			var al *ssa.Alloc
+			switch p := c10Strip(x.X).(type) {
+			case *ssa.Alloc:
+				al = p
+			case *ssa.FreeVar:
+				if b, _, ok := w.cx(st).binding(p); ok {
+					al, _ = b.(*ssa.Alloc)
+				}
+			}
+			if al == nil {
+				break
+			}
+			if cur := st.cell(al); cur != nil {
+				if st.loads == nil {
+					st.loads = map[*ssa.UnOp]ssa.Value{}
+				}
+				st.loads[x] = cur
+			} else if st.loads != nil {
+				delete(st.loads, x)
+			}
 		}
 	}
 }
@@ -832,6 +994,29 @@ func (cx c10Cx) binding(fv *ssa.FreeVar) (ssa.Value, c10Cx, bool) {
 			}
 			return found.Bindings[idx], up, true
 		}
+	} else if pkg := c10PkgOf(fn); pkg != nil && fn.Synthetic != "" {
+		// a method value (bound method wrapper): the receiver is captured where the method value is made
+		var found *ssa.MakeClosure
+		n := 0
+		for _, g := range an.PkgFuncs(pkg) {
+			for _, in := range an.Instrs(g, false) {
+				if mc, ok := in.(*ssa.MakeClosure); ok && mc.Fn == ssa.Value(fn) {
+					found = mc
+					n++
+				}
+			}
+		}
+		if n == 1 && idx < len(found.Bindings) {
+			up := cx
+			up.ch = nil
+			for k := range cx.ch {
+				if an.Orig(cx.ch[k].Parent()) == an.Orig(found.Parent()) {
+					up.ch = cx.ch[k+1:]
+					break
+				}
+			}
+			return found.Bindings[idx], up, true
+		}
 	}
 	return nil, cx, false
 }
@@ -888,7 +1073,7 @@ func (cx c10Cx) call(x *ssa.Call) *c10T {
 	for _, a := range cc.Args {
 		args = append(args, cx.term(a))
 	}
-	name := an.CalleeName(cc)
+	name := cx.dynName(cc)
 	if name == "" {
 		name = "dynamic"
 	}
@@ -927,6 +1112,11 @@ func (cx c10Cx) inline(call *ssa.Call, idx int) (ssa.Value, c10Cx, bool) {
 		return nil, cx, false
 	}
 	if c10PureCtor(an.FuncName(f)) || f.Recover != nil {
+		return nil, cx, false
+	}
+	// the status of a helper (its last, error-typed result) is not a value to look through: it stays the
+	// status of that call, about which the path learns facts
+	if res := f.Signature.Results(); idx == res.Len()-1 && an.IsErrorType(res.At(idx).Type()) {
 		return nil, cx, false
 	}
 	var ok1 *ssa.Return
@@ -1002,6 +1192,9 @@ func (cx c10Cx) load(ld *ssa.UnOp) *c10T {
 		if v := c10WholeStore(x); v != nil {
 			return cx.term(v)
 		}
+		if v := cx.st.loads[ld]; v != nil {
+			return cx.term(v)
+		}
 		if n, ok := c10CellWrites(x); ok && n == 0 && c10NoFieldStores(x) {
 			return c10mk("zero", an.TypeName(x.Type()))
 		}
@@ -1016,6 +1209,9 @@ func (cx c10Cx) load(ld *ssa.UnOp) *c10T {
 		if b, bcx, ok := cx.binding(x); ok {
 			if al, isAl := b.(*ssa.Alloc); isAl {
 				if v := c10WholeStore(al); v != nil {
+					return bcx.term(v)
+				}
+				if v := cx.st.loads[ld]; v != nil {
 					return bcx.term(v)
 				}
 			}
@@ -1106,7 +1302,7 @@ func c10NoFieldStores(a *ssa.Alloc) bool {
 func c10LeafUnsure(t *c10T, pkgPrefix string) bool {
 	for i := 0; i < 16; i++ {
 		switch t.op {
-		case "load", "deep", "opaque", "loopvar", "freevar", "recv":
+		case "load", "deep", "opaque", "loopvar", "freevar", "recv", "phi":
 			return true
 		case "dyn":
 			return strings.HasPrefix(t.name, "dynamic#") // a function value whose target is not known
@@ -1260,6 +1456,9 @@ func (cx c10Cx) eval(v ssa.Value) c10Abs {
 				if s := c10WholeStore(al); s != nil {
 					return cx.eval(s)
 				}
+				if s := cx.st.loads[x]; s != nil {
+					return cx.eval(s)
+				}
 				if s := c10ReachingStore(x, al); s != nil {
 					return cx.eval(s)
 				}
@@ -1377,6 +1576,10 @@ func (cx c10Cx) assume(v ssa.Value, truth bool) {
 			cx.assume(x.X, !truth)
 			return
 		}
+		if s := cx.cellOf(x); s != nil {
+			cx.assume(s, truth)
+			return
+		}
 	case *ssa.BinOp:
 		if x.Op == token.EQL || x.Op == token.NEQ {
 			eq := truth
@@ -1393,6 +1596,10 @@ func (cx c10Cx) assume(v ssa.Value, truth bool) {
 					cx.assume(x.X, eq == k)
 				} else if k, ok := c10BoolConst(x.X); ok {
 					cx.assume(x.Y, eq == k)
+				} else if k, ok := c10Strip(x.Y).(*ssa.Const); ok && k.Value != nil {
+					cx.importSummaryEq(x.X, k, eq)
+				} else if k, ok := c10Strip(x.X).(*ssa.Const); ok && k.Value != nil {
+					cx.importSummaryEq(x.Y, k, eq)
 				}
 			}
 		}
@@ -1413,6 +1620,21 @@ func (cx c10Cx) assume(v ssa.Value, truth bool) {
 	} else {
 		cx.importSummary(v, "false")
 	}
+}
+
+// cellOf: ld loads a local variable whose content on this path is known: returns that value.
+func (cx c10Cx) cellOf(ld *ssa.UnOp) ssa.Value {
+	if ld.Op != token.MUL {
+		return nil
+	}
+	al, ok := c10Strip(ld.X).(*ssa.Alloc)
+	if !ok {
+		return nil
+	}
+	if s := c10WholeStore(al); s != nil {
+		return s
+	}
+	return cx.st.loads[ld]
 }
 
 func c10BoolConst(v ssa.Value) (bool, bool) {
@@ -1452,6 +1674,12 @@ func (cx c10Cx) setNil(v ssa.Value, isNil bool) {
 			cx.setNil(b, isNil)
 		}
 	}
+	if ld, ok := v.(*ssa.UnOp); ok {
+		if s := cx.cellOf(ld); s != nil {
+			cx.setNil(s, isNil)
+			return
+		}
+	}
 	cx.put(cx.term(v), a)
 	if isNil {
 		cx.importSummary(v, "nil")
@@ -1477,14 +1705,77 @@ func (cx c10Cx) importSummary(v ssa.Value, kind string) {
 	default:
 		return
 	}
-	for _, f := range cx.w.summary(call, cx.ch, kind) {
+	for _, f := range cx.w.summaryK(call, cx.ch, kind, nil, cx.st) {
 		cx.put(f.t, f.a)
 	}
 }
 
+// importSummaryEq: v is the single result of an in-package helper (a mode / enum / classification of
+// its inputs) and the path has just learned that it equals (eq) or differs from the constant k: the facts
+// common to all returns of the helper that are consistent with that hold.
+func (cx c10Cx) importSummaryEq(v ssa.Value, k *ssa.Const, eq bool) {
+	if cx.w == nil {
+		return
+	}
+	v = c10Strip(v)
+	if phi, ok := v.(*ssa.Phi); ok {
+		if b, bound := cx.st.phis[phi]; bound && b != ssa.Value(phi) {
+			v = c10Strip(b)
+		}
+	}
+	if ld, ok := v.(*ssa.UnOp); ok {
+		if s := cx.cellOf(ld); s != nil {
+			v = c10Strip(s)
+		}
+	}
+	call, ok := v.(*ssa.Call)
+	if !ok || call.Call.Signature().Results().Len() != 1 {
+		return
+	}
+	kind := "ne:"
+	if eq {
+		kind = "eq:"
+	}
+	facts := cx.w.summaryK(call, cx.ch, kind+k.Value.ExactString(), k, cx.st)
+	c10Debug("importSummaryEq %s %s%s -> %d facts", an.CalleeName(&call.Call), kind, k.Value.ExactString(), len(facts))
+	for _, f := range facts {
+		cx.put(f.t, f.a)
+	}
+}
+
+func (w *c10W) summary(call *ssa.Call, ch c10Chain, kind string) []c10Fact {
+	return w.summaryK(call, ch, kind, nil, nil)
+}
+
+// memory renders what the path knows about the content of local variables (the helper is explored with
+// that knowledge, so that the values it is given are described as the caller describes them).
+func (s *c10State) memory() (*c10State, string) {
+	n := c10NewState()
+	if s == nil || len(s.cells)+len(s.loads)+len(s.phis) == 0 {
+		return n, ""
+	}
+	var keys []string
+	for p, v := range s.phis {
+		n.phis[p] = v
+		keys = append(keys, fmt.Sprintf("p%p=%p", p, v))
+	}
+	n.cells = make(map[*ssa.Alloc]ssa.Value, len(s.cells))
+	for a, v := range s.cells {
+		n.cells[a] = v
+		keys = append(keys, fmt.Sprintf("c%p=%p", a, v))
+	}
+	n.loads = make(map[*ssa.UnOp]ssa.Value, len(s.loads))
+	for a, v := range s.loads {
+		n.loads[a] = v
+		keys = append(keys, fmt.Sprintf("l%p=%p", a, v))
+	}
+	sort.Strings(keys)
+	return n, strings.Join(keys, ";")
+}
+
 // summary computes the facts that hold on every successful return (error result nil / boolean
 // result true) of the in-package helper called by call.
-func (w *c10W) summary(call *ssa.Call, ch c10Chain, kind string) []c10Fact {
+func (w *c10W) summaryK(call *ssa.Call, ch c10Chain, kind string, konst *ssa.Const, from *c10State) []c10Fact {
 	f := c10Callee(call)
 	if f == nil || !c10SamePkg(f, w.fn) || len(ch) >= 3 || ch.has(f) || an.Orig(call.Parent()) == f {
 		return nil
@@ -1503,9 +1794,14 @@ func (w *c10W) summary(call *ssa.Call, ch c10Chain, kind string) []c10Fact {
 		if b, ok := last.Underlying().(*types.Basic); !ok || b.Kind() != types.Bool || res.Len() != 1 {
 			return nil
 		}
+	default:
+		if konst == nil || res.Len() != 1 {
+			return nil
+		}
 	}
 	nch := ch.push(call)
-	key := fmt.Sprintf("%p%s/%s/%t/%t/%d", f, nch.id(), kind, w.base != nil, w.keep != nil, len(w.forall))
+	st0, mem := from.memory()
+	key := fmt.Sprintf("%p%s/%s/%t/%t/%d/%s", f, nch.id(), kind, w.base != nil, w.keep != nil, len(w.forall), mem)
 	if w.sums == nil {
 		w.sums = c10NewSums()
 	}
@@ -1527,16 +1823,24 @@ func (w *c10W) summary(call *ssa.Call, ch c10Chain, kind string) []c10Fact {
 		}
 		status := rv[len(rv)-1]
 		cx := sub.cx(st)
+		if konst != nil {
+			// returns of a constant other than (eq) / equal to (ne) the one compared with are excluded
+			rk := c10ConstOf(cx, status)
+			if rk != nil && rk.Value != nil && (constant.Compare(rk.Value, token.EQL, konst.Value) != strings.HasPrefix(kind, "eq:")) {
+				return true
+			}
+		}
 		a := cx.eval(status)
 		if kind == "nil" && a == c10NonNil || kind == "true" && a == c10False || kind == "false" && a == c10True {
 			return true
 		}
 		st = st.clone()
 		cx = sub.cx(st)
-		switch kind {
-		case "nil":
+		switch {
+		case konst != nil:
+		case kind == "nil":
 			cx.setNil(status, true)
-		case "true":
+		case kind == "true":
 			cx.assume(status, true)
 		default:
 			cx.assume(status, false)
@@ -1556,7 +1860,7 @@ func (w *c10W) summary(call *ssa.Call, ch c10Chain, kind string) []c10Fact {
 		}
 		return true
 	}
-	sub.run(c10NewState())
+	sub.run(st0)
 	var out []c10Fact
 	if !sub.overflow && n > 0 {
 		keys := make([]string, 0, len(common))
@@ -1732,6 +2036,33 @@ func (w *c10W) addForall(l *an.Loop, st *c10State) {
 	for _, ft := range common {
 		st.facts[ft.s] = c10Fact{ft, c10True}
 	}
+}
+
+// c10ConstOf: the value is a constant on this path (directly, through a phi entered from a known edge
+// or a local variable whose content is known).
+func c10ConstOf(cx c10Cx, v ssa.Value) *ssa.Const {
+	for i := 0; i < 6; i++ {
+		v = c10Strip(v)
+		switch x := v.(type) {
+		case *ssa.Const:
+			return x
+		case *ssa.Phi:
+			b, ok := cx.st.phis[x]
+			if !ok || b == ssa.Value(x) {
+				return nil
+			}
+			v = b
+		case *ssa.UnOp:
+			s := cx.cellOf(x)
+			if s == nil {
+				return nil
+			}
+			v = s
+		default:
+			return nil
+		}
+	}
+	return nil
 }
 
 func (w *c10W) forallName(name string) bool { return w.forall[name] }
